@@ -51,10 +51,21 @@ def run(tier, seed, jobs=None):
     V, vcount = [], {}
     try:
         nsh = max(1, jobs - min(K, 4))
-        procs = []
-        for i in range(nsh):
-            out = os.path.join(tmp, f'x{i}.json')
-            procs.append(('x', out, _spawn(['explore', str(bound), str(max_exec), out, f'{i}/{nsh}'], 0)))
+        # the exploration is cut into more shards than run at a time (thorough: four times as many), started as
+        # earlier ones finish: a few items take a hundred times longer than the rest
+        nshards = nsh if tier == 'quick' else 4 * nsh
+        todo = list(range(nshards))
+        procs, live = [], []
+
+        def start_shards():
+            live[:] = [p for p in live if p.poll() is None]
+            while todo and len(live) < nsh:
+                i = todo.pop(0)
+                out = os.path.join(tmp, f'x{i}.json')
+                p = _spawn(['explore', str(bound), str(max_exec), out, f'{i}/{nshards}'], 0)
+                procs.append(('x', out, p))
+                live.append(p)
+        start_shards()
         seeds = [(seed * 7 + k) % 4096 for k in range(K)]
         plain = []
         pending = list(seeds)
@@ -71,7 +82,11 @@ def run(tier, seed, jobs=None):
                 sys.stderr.write(o.decode()[-3000:])
                 sys.exit(runner.HARNESS_ERROR)
             plain.append((sd, json.load(open(out))))
+            start_shards()
         explored = {}
+        while todo:
+            start_shards()
+            time.sleep(0.5)
         for _, out, p in procs:
             o, _ = p.communicate()
             if p.returncode != 0:
@@ -142,7 +157,7 @@ def run(tier, seed, jobs=None):
             'states': executions, 'transitions': sum(v['executions'] * max(1, v['points_max']) for v in explored.values()),
             'traces_validated_against_impl': executions + len(plain) * len(ref),
             'battery_items': len(explored), 'ordered_call_pairs_checked': pairs_run, 'choice_points_default_run': points, 'deviation_bound': bound,
-            'items_capped': capped, 'hash_seeds': [s for s, _ in plain],
+            'items_capped': capped, 'slowest_items': sorted(((v.get('wall', 0), k) for k, v in explored.items()), reverse=True)[:5], 'hash_seeds': [s for s, _ in plain],
             'distinct_transcripts': len({v['outcomes'][0]['t'] for v in explored.values()}),
             'samples': [{'item': n, 'executions': v['executions'], 'choice_points': v['points_max']}
                         for n, v in list(explored.items())[:3]] +
